@@ -103,7 +103,7 @@ class Verifier:
             # byte-sequence VCs: cvc5 decides many that z3's sequence solver leaves open - run it alongside
             smt2_ = s.to_smt2()
             if 'lambda' not in smt2_ and '(intersection ' not in smt2_ and '(union ' not in smt2_:
-                proc = start_cvc5(smt2_, max(10, self.timeout_ms // 1000) * 4)
+                proc = start_cvc5(smt2_, max(10, self.timeout_ms // 1000) * 8)
             # z3 gets a short, fixed window on portfolio units in every tier: with byte-slice terms under quantifiers a longer
             # window has been seen not to return at all (L19), and cvc5 - an external process that can be killed - decides these
             s.set('timeout', min(self.timeout_ms, 2500))
